@@ -209,13 +209,28 @@ def evaluate(case):
                     payload["errors"] = [{"message": e.message} for e in res.errors]
                 return Resp(payload)
             acs.httpx.post = fake_post
+        if case.get("process_locale"):
+            # the real command in its own process under a non-UTF-8 locale: what it writes must not depend on the locale's preferred encoding
+            import subprocess
+            import toml
+            open(os.path.join(d, "pyproject.toml"), "w", encoding="utf-8").write(toml.dumps({"tool": {"ariadne-codegen": sec}}))
+            env = dict(os.environ, LC_ALL=case["process_locale"], LANG=case["process_locale"], PYTHONUTF8="0", PYTHONCOERCECLOCALE="0", PYTHONIOENCODING="utf-8")
+            r = subprocess.run(["/venv/bin/python", "-m", "ariadne_codegen", "graphqlschema"], cwd=d, env=env, capture_output=True, timeout=300)
+            if r.returncode:
+                out.update(status="gen_error", error=r.stderr.decode("utf-8", "replace")[-400:], error_type="subprocess_exit_" + str(r.returncode))
+                return out
+        else:
+            try:
+                with contextlib.redirect_stdout(io.StringIO()):
+                    acm.graphql_schema({"tool": {"ariadne-codegen": sec}})
+            except BaseException as e:  # noqa
+                out.update(status="gen_error", error=f"{type(e).__name__}: {str(e)[:400]}", error_type=type(e).__name__)
+                return out
         try:
-            with contextlib.redirect_stdout(io.StringIO()):
-                acm.graphql_schema({"tool": {"ariadne-codegen": sec}})
-        except BaseException as e:  # noqa
-            out.update(status="gen_error", error=f"{type(e).__name__}: {str(e)[:400]}", error_type=type(e).__name__)
+            text = open(target, encoding="utf-8").read()
+        except UnicodeDecodeError as e:
+            P.append(("generated_file_not_utf8", str(e)[:200]))
             return out
-        text = open(target, encoding="utf-8").read()
         if source == "both" and asked["n"]:
             P.append(("remote_consulted_although_schema_path_given", f"{asked['n']} introspection request(s) sent"))
         if fmt == "py":
@@ -275,6 +290,13 @@ DESCRIPTION_TEXTS = {
     "unicode": "Zażółć ☃",
     "crlf": "a\r\nb",
     "spaces_only_line": "a\n   \nb",
+    # LONG texts (beyond any line-length / wrapping threshold: 72, 79, 88, 100, 120 columns) with and without line breaks, tabs, runs of spaces
+    "long_single_line": "word " * 40 + "end",
+    "long_with_newline": "The first line of this description is deliberately longer than eighty-eight characters, then breaks\nand continues on a second line that is also quite long, so that any re-wrapping of the text would show",
+    "long_with_tab_and_double_spaces": "column one\tcolumn two\tcolumn three  (two spaces before this)   three spaces, and the line keeps going well beyond one hundred and twenty characters in total",
+    "long_word_without_spaces": "x" * 150,
+    "long_many_short_lines": "\n".join(f"line {i}" for i in range(30)),
+    "long_trailing_spaces_per_line": "a line ending in two spaces  \n" * 6 + "last",
 }
 
 
@@ -363,6 +385,12 @@ def build_cases(tier):
                 cases.append(dict(sdl=sdl, components=combo, format="py", vars=vn, source="sdl"))
             for fmt in ("py", "graphql"):
                 cases.append(dict(sdl=sdl, components=combo, format=fmt, vars=None, source="introspection"))
+    # non-ASCII text (descriptions, string defaults, deprecation reasons) generated by the real command under non-UTF-8 process locales
+    uni_sdl = ('"""Zażółć gęślą jaźń ☃ \U0001F600"""\ntype Query {\n  "opis pola: ą"\n  f(a: String = "domyślna wartość ☃"): Int @deprecated(reason: "przestarzałe ✓")\n}\n')
+    for loc in ("C", "POSIX"):
+        for fmt in ("py", "graphql"):
+            cases.append(dict(sdl=uni_sdl, components=("non_ascii_text",), format=fmt, vars=None, source="sdl", process_locale=loc, tags={f"process_locale:{loc}", "non_ascii_text"}))
+    cases.append(dict(sdl=uni_sdl, components=("non_ascii_text",), format="py", vars=None, source="sdl", tags={"non_ascii_text"}))
     # spelling of the target file extension (the settings accept any case) and both schema sources configured at once
     for comp in ("interface_chain", "input_defaults_composite", "directive_definitions"):
         sdl = build_sdl((comp,))
